@@ -68,7 +68,7 @@ func unwrapClass(key []byte, err error) string {
 }
 
 func checkC19(c *Ctx) {
-	c.rule = "identity values (declared public key A, private-key file of A or of B), for ssh-ed25519 (OpenSSH format, bcrypt KDF) and ssh-rsa (legacy encrypted PEM); stanza lists: addressed to A, to B, to an unrelated key C, to A with the matching stanza at each position among grease / other-type / same-type-other-tag stanzas, empty-ish lists; ALL call sequences of length <= 2 (quick: ed25519 sampled beyond length 1) plus, in the thorough tier, a sample of those of length 3 (1/10 for rsa, 1/300 for ed25519) over {stanza list} x {right passphrase, wrong passphrase, failing callback}. Per call: result class and file key, whether the callback ran — implementation vs model; oracle: after EVERY history, every file probed with the right passphrase gives what a fresh identity gives. distinct_nontrivial = distinct (identity, history) cases."
+	c.rule = "identity values (declared public key A, private-key file of A or of B), for ssh-ed25519 (OpenSSH format, bcrypt KDF) and ssh-rsa (legacy encrypted PEM); stanza lists: addressed to A, to B, to an unrelated key C, to A with the matching stanza at each position among grease / other-type / same-type-other-tag stanzas, empty-ish lists; ALL call sequences of length <= 2 (quick: ed25519 sampled beyond length 1) plus, in the thorough tier, a sample of those of length 3 (1/20 for rsa, 1/600 for ed25519; none for the negated-key case) over {stanza list} x {right passphrase, wrong passphrase, failing callback}. Per call: result class and file key, whether the callback ran — implementation vs model; oracle: after EVERY history, every file probed with the right passphrase gives what a fresh identity gives. distinct_nontrivial = distinct (identity, history) cases."
 	fileKey := c.rng.bytes(16)
 	type famCase struct {
 		fam     string
@@ -236,7 +236,7 @@ func checkC19(c *Ctx) {
 						if fam == "ed25519" && len(h) >= 1 && !c.thorough() && c.rng.intn(40) != 0 {
 							continue // bcrypt KDF (~80 ms per passphrase try): keep the quick tier short
 						}
-						if c.thorough() && len(h) == 2 && (fc.neg || c.rng.intn(map[string]int{"ed25519": 300, "rsa": 10}[fam]) != 0) {
+						if c.thorough() && len(h) == 2 && (fc.neg || c.rng.intn(map[string]int{"ed25519": 600, "rsa": 20}[fam]) != 0) {
 							continue // length 3 is SAMPLED in the thorough tier (exhaustive would take hours of bcrypt)
 						}
 						rec(append(append([]c19Call{}, h...), c19Call{f, a}))
